@@ -224,6 +224,25 @@ def free_vars(a):
     return free_vars(a["a"])
 
 
+def defaulted_vars(a):
+    """variables for which some shape function of the expression declares a default (they are optional: the library
+    does not list them as necessary, a supplied value still wins)"""
+    acc = set()
+
+    def rec(e):
+        if is_aff(e):
+            if len(e) > 3:
+                acc.update(v for v in e[3] if v in e[2])
+        elif isinstance(e, list):
+            for y in e:
+                rec(y)
+        elif isinstance(e, dict):
+            for y in e.values():
+                rec(y)
+    rec(a)
+    return acc
+
+
 def is_solid(a):
     k = a["k"]
     if k in ("boundary", "bleft", "bright", "point"):
@@ -255,6 +274,8 @@ def substitute(a, fixed):
                     c += w * fixed[v]
                 else:
                     co[v] = w
+            if co and len(e) > 3 and any(v in co for v in e[3]):
+                return ["aff", c, co, {v: d for v, d in e[3].items() if v in co}]
             return ["aff", c, co] if co else c
         if isinstance(e, list):
             return [sub(y) for y in e]
